@@ -315,3 +315,13 @@ def run(repo: Repo, rep: Report, tier: str) -> None:
 
     # ---------------- R14 --------------------------------------------------------------
     _borrow3b(repo, rep, "C10", "C10-R21", "C03-R14", "readers of two cells on one signal type stay two readers under optimisation: CSE tells reads apart by the cell they read", floor=1)
+
+    # ---------------- R15 --------------------------------------------------------------
+    rep.rule("C03-R15", "two gated cells on one signal that are read together stay two cells: the hold gate's output is wired back into its own input, so a reader that takes two "
+             "hold-gate outputs on one colour joins the two hold loops and each cell adds the other's value every tick — the colour of a hold gate's output towards its readers "
+             "is left to the conflict colouring (no lock keyed by the hold gate), as for folded cells (C04-R11)")
+    dl15 = repo.func("LayoutPlanner._determine_locked_wire_colors")
+    pins15 = [n for n in walk_local(dl15.node) if isinstance(n, ast.Assign) and isinstance(n.targets[0], ast.Subscript) and isinstance(n.value, ast.Constant) and n.value.value in ("red", "green")
+              and "hold_gate" in norm(n.targets[0].slice)]
+    rep.check(not pins15, "C03-R15", "_determine_locked_wire_colors does not pin a hold gate's output to one colour", "no lock keyed by a hold gate" if not pins15 else
+              f"`{norm(pins15[0])[:80]}`: `Signal out = m1.read() - m2.read();` with both cells on one signal joins the two hold loops (the circuit never settles)", dl15.loc(pins15[0]) if pins15 else dl15.loc())
